@@ -80,7 +80,7 @@ def main():
     for d in sorted(glob.glob(os.path.join(VERIF, 'seeded', '*'))):
         if not os.path.isdir(d) or not os.path.exists(os.path.join(d, 'meta.json')):
             continue
-        if args.only and args.only not in os.path.basename(d):
+        if args.only and not any(o in os.path.basename(d) for o in args.only.split(",")):
             continue
         meta = json.load(open(os.path.join(d, 'meta.json')))
         if meta.get('status') == 'rejected':
